@@ -123,8 +123,14 @@ def step (line : String) : String :=
       let ok := pyOk && match pyMask with
         | some pm => specMask ε r xc yc pre es pm
         | none => false
-      let implok := specMask ε r xc yc pre es model
-      driverResult impl ok implok true (stateBranch r st)
+      -- inside the hypothesis of `roi_selection` the theorem's own conclusion is re-checked on the
+      -- executed case (exact boundary, no band); outside it (polygonised circles …) the band is used
+      let inP := es.all (inScope r xc yc usePre pre)
+      let implok :=
+        if inP then (es.zip model).all fun em =>
+          specOnBoundary r xc yc pre em.1 || (em.2 == specSelected r xc yc pre em.1)
+        else specMask ε r xc yc pre es model
+      driverResult impl ok implok inP (stateBranch r st)
     | _, _, _, _, _, _ => bad "sel-args"
   | some (.list [.atom "mpl", .list [vsE, ptsE], pyout]) =>
     match pts? vsE, pts? ptsE with
